@@ -44,7 +44,11 @@ class BitcoinSolutionChecker(SegwitChecker, P2SChecker):
         must appear in the main script aligned to opcode boundaries for it
         to be removed.
         """
-        subscript = self.ScriptTools.compile_push_data_list([sig_blob])
+        if len(sig_blob) < 76:
+            # consensus removes the plain length-prefixed push, never OP_1..OP_16 / OP_1NEGATE
+            subscript = bytes([len(sig_blob)]) + sig_blob
+        else:
+            subscript = self.ScriptTools.compile_push_data_list([sig_blob])
         new_script = bytearray()
         pc = 0
         for opcode, data, pc, new_pc in self.ScriptTools.get_opcodes(script):
